@@ -1,1 +1,185 @@
-# stub
+"""
+C17: the Gaussian correction functions v, w, vt, wt and the normal CDF against the model's
+exact definitions (evaluated by the driver), within the bounds the property states.
+"""
+import math, random, sys
+import core
+from core import f2h, h2f, size, Driver, wl_common
+from props import register
+
+EPS = sys.float_info.epsilon
+TINY = 2.2250738585072014e-308
+ORACLE = "H"
+
+
+def oracle_lines(fn, x, t):
+    if ORACLE == "H":
+        return "HLEAF %s %s %s" % (fn, f2h(x), f2h(t))
+    return "LEAF %s %s %s" % ({"v": "vx", "w": "wx", "vt": "vtx", "wt": "wtx", "Phi": "Phi"}[fn], f2h(x), f2h(t))
+
+
+def bisect(f, lo, hi, target, it=200):
+    """f increasing"""
+    for _ in range(it):
+        mid = (lo + hi) / 2
+        if f(mid) < target:
+            lo = mid
+        else:
+            hi = mid
+    return hi
+
+
+def ulp_neighbourhood(x, k=6):
+    out, a, b = [x], x, x
+    for _ in range(k):
+        a = math.nextafter(a, -math.inf); b = math.nextafter(b, math.inf)
+        out += [a, b]
+    for s in (1e-12, 1e-9, 1e-6):
+        out += [x * (1 - s), x * (1 + s)]
+    return out
+
+
+def thresholds(t):
+    pm = wl_common.phi_major
+    xs = []
+    u = bisect(pm, -9.0, -7.0, EPS)               # Phi(u) = eps      (v, w)
+    xs += [u + t]
+    b = lambda xx: -(pm(t - xx) - pm(-t - xx))     # increasing in xx for xx >= 0
+    if -b(0.0) > 1e-5:
+        x5 = bisect(b, 0.0, 40.0, -1e-5)
+        xs += [x5, -x5]
+    if -b(0.0) > EPS:
+        xe = bisect(b, 0.0, 40.0, -EPS)
+        xs += [xe, -xe]
+    return xs
+
+
+def sweep_points(res, rng):
+    step = 0.05 if res.tier == "quick" else 0.004
+    ts = [1e-8, 1e-7, 1e-6, 7e-6, 1e-5, 1e-4, 1e-3, 1e-2] if res.tier == "quick" else \
+        [10 ** (-8 + 6 * k / 36) for k in range(37)] + [7e-6, 1.2e-5]
+    pts = []
+    k = 0
+    nx = int(80 / step)
+    for ti, t in enumerate(ts):
+        for i in range(nx + 1):
+            k += 1
+            if k % res.nshards != res.shard:
+                continue
+            x = -40 + i * step + rng.uniform(-step / 2, step / 2) * (i % 2)
+            if res.tier == "quick" and ((i + ti) % 4 or (abs(x) > 12 and i % 40)):
+                continue
+            pts.append((max(-40.0, min(40.0, x)), t))
+        if res.shard == ti % res.nshards:
+            for x0 in thresholds(t):
+                for x in ulp_neighbourhood(x0):
+                    pts.append((x, t))
+            for x in (0.0, -0.0, 1e-300, -1e-300, t, -t, 40.0, -40.0):
+                pts.append((x, t))
+    return pts
+
+
+def c17_point(res, x, t, exact, phix):
+    """exact: dict fn -> oracle value;  phix: exact Phi(x - t)"""
+    inp = dict(type="leaf", x=x, t=t)
+    try:
+        got = {"v": wl_common.v(x, t), "w": wl_common.w(x, t), "vt": wl_common.vt(x, t), "wt": wl_common.wt(x, t)}
+    except Exception as e:  # noqa: BLE001
+        res.fail("property", "C17: a correction function raised %s at x=%r t=%r" % (type(e).__name__, x, t), inp)
+        return
+    res.traces += 1
+    for fn, y in got.items():
+        if not math.isfinite(y):
+            res.fail("property", "C17: %s(%r, %r) = %r is not finite" % (fn, x, t, y), inp); return
+    slack = 1e-13 / t
+    if got["v"] < 0:
+        res.fail("property", "C17: v(%r, %r) = %r < 0" % (x, t, got["v"]), inp)
+    for fn in ("w", "wt"):
+        if not (-slack <= got[fn] <= 1 + slack):
+            res.fail("property", "C17: %s(%r, %r) = %r outside [0, 1] (slack %.3g)" % (fn, x, t, got[fn], slack), inp)
+    # v, w against V, W
+    if phix >= EPS * (1 + 1e-9):
+        res.count("v_w_exact_branch")
+        for fn in ("v", "w"):
+            e = exact[fn]
+            if abs(e) < TINY:
+                ok = abs(got[fn] - e) <= 1e-307
+            else:
+                ok = abs(got[fn] - e) <= 1e-6 * abs(e)
+            if not ok:
+                res.fail("property", "C17: %s(%r, %r) = %r, exact %r: relative error above 1e-6 with Gaussian mass %r above the guard" % (
+                    fn, x, t, got[fn], e, phix), inp)
+    else:
+        res.count("v_w_asymptotic_branch" if phix < EPS * (1 - 1e-9) else "v_w_knife_edge")
+        for fn in ("v", "w"):
+            e = exact[fn]
+            if abs(got[fn] - e) > 0.02 * abs(e):
+                res.fail("property", "C17: %s(%r, %r) = %r, exact %r: more than 2 percent off on the asymptotic branch" % (fn, x, t, got[fn], e), inp)
+    if abs(got["vt"] - exact["vt"]) > 2 * t * (1 + 1e-9) + 4e-16 * abs(exact["vt"]):
+        res.fail("property", "C17: vt(%r, %r) = %r, exact %r: off by more than 2t" % (x, t, got["vt"], exact["vt"]), inp)
+    if abs(got["wt"] - exact["wt"]) > 20 * t + 1e-13 / t:
+        res.fail("property", "C17: wt(%r, %r) = %r, exact %r: off by more than 20t + 1e-13/t = %.3g" % (
+            x, t, got["wt"], exact["wt"], 20 * t + 1e-13 / t), inp)
+    res.count("wt_err_frac_of_bound_%d" % min(9, int(10 * abs(got["wt"] - exact["wt"]) / (20 * t + 1e-13 / t))))
+
+
+def c17_points(res, pts):
+    drv = Driver()
+    outs = drv.run(["HLEAFS %s %s" % (f2h(x), f2h(t)) for (x, t) in pts])
+    for (x, t), o in zip(pts, outs):
+        vals = [h2f(y) for y in o.split(" ")[1:]]
+        c17_point(res, x, t, dict(v=vals[0], w=vals[1], vt=vals[2], wt=vals[3]), vals[4])
+
+
+def c17_cdf(res, xs):
+    drv = Driver()
+    outs = drv.run(["HPHI %s" % f2h(x) for x in xs])
+    for x, o in zip(xs, outs):
+        e = h2f(o.split(" ")[1])
+        try:
+            got = wl_common.phi_major(x)
+        except Exception as ex:  # noqa: BLE001
+            res.fail("property", "C17: phi_major(%r) raised %s" % (x, type(ex).__name__), dict(type="cdf", x=x)); continue
+        res.traces += 1
+        res.count("cdf_points")
+        if e < TINY:
+            ok = abs(got - e) <= 1e-12 * TINY
+        else:
+            ok = abs(got - e) <= 1e-12 * e
+        if not ok:
+            res.fail("property", "C17: normal CDF at %r is %r, exact %r (relative error %.3g > 1e-12)" % (x, got, e, abs(got - e) / max(e, 1e-320)),
+                     dict(type="cdf", x=x))
+
+
+def c17_item(res, item):
+    res.case(item)
+    if item.get("type") == "cdf":
+        c17_cdf(res, [item["x"]])
+    else:
+        c17_points(res, [(item["x"], item["t"])])
+
+
+def c17(res):
+    rng = random.Random(res.seed)
+    pts = sweep_points(res, rng)
+    for p in pts[:: max(1, len(pts) // 2000)]:
+        res.case(dict(x=p[0], t=p[1]))
+    res.evaluations = len(pts)
+    c17_points(res, pts)
+    step = 0.05 if res.tier == "quick" else 0.002
+    n = int(75.5 / step)
+    xs = [min(38.0, -37.5 + i * step + rng.uniform(0, step)) for i in range(n) if i % res.nshards == res.shard] + [-37.5, 38.0, 0.0, -8.3, -5.0]
+    c17_cdf(res, xs)
+    res.evaluations += len(xs)
+    res.rule = ("x swept over [-40, 40] (step %.3g, jittered) x t in %s, plus 18-point ulp/relative neighbourhoods of every branch threshold "
+                "(Phi(x-t)=eps, b=1e-5, b=eps, located by bisection on the implementation's CDF) and x in {0, -0, +-1e-300, +-t, +-40}; the "
+                "exported v, w, vt, wt against the model's exact V, W, V~, W~ evaluated by the Lean big-float oracle (>= 320 bits), with the "
+                "bounds the property states; CDF on [-37.5, 38] to 1e-12 relative" % (0.05 if res.tier == "quick" else 0.004,
+                                                                                    "8 values in [1e-8,1e-2]" if res.tier == "quick" else "39 log-dense values in [1e-8,1e-2]"))
+
+
+register("C17", c17, c17_item,
+         assumptions=["accuracy of libm erfc/exp and rounding of the float expressions cannot be carried by a theorem over the reals: those clauses are "
+                      "established by this correspondence with the high-precision evaluator",
+                      "range clause 'up to rounding of order 1e-14/t' is read as 1e-13/t (the accuracy the same property grants wt)"],
+         extra_trust=["the Lean big-float evaluator OSModel/HiPrec.lean (series for erf, exp, pi; cross-checked against the Float port)"])
